@@ -1,6 +1,7 @@
 package zv
 
 import (
+	"sort"
 	"fmt"
 	"go/constant"
 	"go/token"
@@ -1091,6 +1092,27 @@ func c19FileOpen(c *Ctx, rule string) {
 				}
 				break
 			}
+			// a lookup of the path in a package-level table whose keys are exactly the two words
+			if ex, isEx := cond.(*ssa.Extract); isEx && ex.Index == 1 {
+				if lk, isLk := ex.Tuple.(*ssa.Lookup); isLk {
+					if ld, isLd := lk.X.(*ssa.UnOp); isLd && ld.Op == token.MUL {
+						if g, isG := ld.X.(*ssa.Global); isG {
+							keys := globalStringMapKeys(g)
+							sort.Strings(keys)
+							if strings.Join(keys, ",") == "stderr,stdout" {
+								who := "path"
+								if resolve(st, lk.Index) != ssa.Value(param) {
+									who = "other(" + st.Desc(lk.Index) + ")"
+								}
+								if pol {
+									return who + "==stdout"
+								}
+								return who + "!=stdout ; " + who + "!=stderr"
+							}
+						}
+					}
+				}
+			}
 			bo, ok := cond.(*ssa.BinOp)
 			if !ok || (bo.Op != token.EQL && bo.Op != token.NEQ) {
 				return ""
@@ -1159,4 +1181,50 @@ func c19FileOpen(c *Ctx, rule string) {
 	c.Check(len(badFlags) == 0 && opens > 0, rule, name, "append-create-write", fn.Pos(), "the file is opened for writing with O_APPEND and O_CREATE (evaluated flag word; offending path: %s)", first(badFlags))
 	c.Check(len(badWords) == 0, rule, name, "std-words-verbatim", fn.Pos(), "\"stdout\"/\"stderr\" are recognised in the path exactly as given, not in a rewritten form (offending path: %s)", first(badWords))
 	c.Check(len(badShape) == 0, rule, name, "open-or-std", fn.Pos(), "every path either recognised stdout/stderr and opens nothing, or opens exactly one file (offending path: %s)", first(badShape))
+}
+
+// globalStringMapKeys: the constant string keys a package-level map is filled with by its package initialiser (nil if
+// it is written anywhere else or with a key that is not a constant).
+func globalStringMapKeys(g *ssa.Global) []string {
+	if g.Pkg == nil {
+		return nil
+	}
+	init := g.Pkg.Func("init")
+	if init == nil {
+		return nil
+	}
+	var mk ssa.Value
+	AllInstrs(init, func(in ssa.Instruction) {
+		if st, ok := in.(*ssa.Store); ok && st.Addr == ssa.Value(g) {
+			mk = st.Val
+		}
+	})
+	if mk == nil {
+		return nil
+	}
+	var keys []string
+	bad := false
+	for _, fn := range curProg.RootFuncs() {
+		AllInstrs(fn, func(in ssa.Instruction) {
+			mu, ok := in.(*ssa.MapUpdate)
+			if !ok {
+				return
+			}
+			if mu.Map == mk {
+				if k, isC := ConstString(mu.Key); isC {
+					keys = append(keys, k)
+				} else {
+					bad = true
+				}
+				return
+			}
+			if ld, ok := mu.Map.(*ssa.UnOp); ok && ld.X == ssa.Value(g) {
+				bad = true
+			}
+		})
+	}
+	if bad {
+		return nil
+	}
+	return keys
 }
